@@ -51,6 +51,11 @@ func execBzw(o *Out, id, line string) {
 		for i := range data {
 			data[i] = byte(rr.U64())
 		}
+		if f[0] == "period" {
+			reps, _ := strconv.Atoi(f[1])
+			data = bytes.Repeat([]byte(f[3]), reps)
+			f = f[:3]
+		}
 		if f[0] == "edge" {
 			// run-free bytes up to k bytes before the level's block limit, then a run of m equal
 			// bytes, then a tail: the RLE1 block buffer fills up inside or right at the run
@@ -87,7 +92,19 @@ func execBzw(o *Out, id, line string) {
 		}
 	}
 	level, _ := strconv.Atoi(kv["level"])
-	out, err := bzWrite(level, data, parseInts(kv["splits"]))
+	var out []byte
+	var err error
+	var pn interface{}
+	if !withWatchdog(timeSec(120), func() { _, pn = catch(func() { out, err = bzWrite(level, data, parseInts(kv["splits"])) }) }) {
+		o.Violate("C08", "bzip2.Writer did not finish within 120s", "writer-hang", line)
+		o.Emit(id, line, "", "hang", kv["gen"]+kv["level"])
+		return
+	}
+	if pn != nil {
+		o.Violate("C04", fmt.Sprintf("bzip2.Writer panicked: %v", pn), "writer-panic", line)
+		o.Emit(id, line, "", "panic", kv["gen"]+kv["level"])
+		return
+	}
 	if err != nil {
 		if level == 0 || (level >= 1 && level <= 9) {
 			o.Violate("C04", "bzip2.Writer failed: "+err.Error(), "writer-error", line)
@@ -125,6 +142,9 @@ func execBzw(o *Out, id, line string) {
 	}
 	// split points inside and around a run that meets the block limit
 	for j := -1; edgeAt >= 0 && j <= edgeRun+1; j++ {
+		if edgeRun > 16 && j > 6 && j < edgeRun-2 && j != 254 && j != 255 && j != 256 {
+			continue // long runs: the ends of the run and the 255/256 boundary
+		}
 		o.Count("edge-split")
 		_, p := catch(func() {
 			out2, err2 := bzWrite(level, data, []int{edgeAt + j, 0})
@@ -235,12 +255,26 @@ func genBzw(r *Rand, tier string, emit func(string)) {
 			emit(fmt.Sprintf("bzw level=%d gen=edge:0:%d:%d:%d", 1+r.Intn(2)*(k%2), r.U64()%1000000, k, m))
 		}
 	}
+	// a run of 255..300 equal bytes whose first 255 bytes (4 literals + count) end 0-2 bytes
+	// before / exactly at / past the block limit: the 256th byte must open the next block
+	for _, k := range []int{3, 4, 5, 6, 7} {
+		for _, m := range []int{255, 256, 257, 300} {
+			emit(fmt.Sprintf("bzw level=1 gen=edge:0:%d:%d:%d", r.U64()%1000000, k, m))
+		}
+	}
+	// periodic inputs: after the BWT one block holds runs of >= 65536 equal bytes, i.e. zero-rank
+	// runs beyond 16 bits in the move-to-front stage
+	for _, p := range []string{"ab", "abc", "a"} {
+		for _, reps := range []int{70000, 140001} {
+			emit(fmt.Sprintf("bzw level=%d gen=period:%d:0:%s", 2+r.Intn(8), reps, p))
+		}
+	}
 }
 
 func init() {
 	register(&Family{
 		Name: "bzw",
-		Rule: "bzip2.Writer: invalid and valid levels; random inputs up to 6000 bytes of several textures, long runs (RLE1 counts, the 255+4 cap), 1-3 symbol alphabets, shuffled Fibonacci frequency profiles that force 20-bit length limiting, random Write splits incl. empty writes; ~100 KB random inputs with a run of 1-300 equal bytes placed within 310 bytes of the level-1 block limit; 150 KB incompressible inputs at level 1 (full blocks of exactly 100000 symbols); run-free inputs that stop 0-5 bytes short of the block limit followed by a run of 2-12 equal bytes, written in one call and with a Write boundary at every position of the run. The emitted bytes are compared with the Lean model (rotation-sort BWT) and decoded by libbzip2, compress/bzip2 and this package's Reader; a second, differently split run must emit identical bytes. Distinct by input",
+		Rule: "bzip2.Writer: invalid and valid levels; random inputs up to 6000 bytes of several textures, long runs (RLE1 counts, the 255+4 cap), 1-3 symbol alphabets, shuffled Fibonacci frequency profiles that force 20-bit length limiting, random Write splits incl. empty writes; ~100 KB random inputs with a run of 1-300 equal bytes placed within 310 bytes of the level-1 block limit; 150 KB incompressible inputs at level 1 (full blocks of exactly 100000 symbols); run-free inputs that stop 0-5 bytes short of the block limit followed by a run of 2-12 equal bytes, written in one call and with a Write boundary at every position of the run; runs of 255-300 equal bytes whose first 255 bytes end at the block limit; periodic inputs (\"ab\" x 70000 ...) whose BWT holds runs of >= 65536 equal bytes. The emitted bytes are compared with the Lean model (rotation-sort BWT) and decoded by libbzip2, compress/bzip2 and this package's Reader; a second, differently split run must emit identical bytes. Distinct by input",
 		Gen:  genBzw,
 		Exec: execBzw,
 	})
